@@ -38,8 +38,24 @@ pub const fn mulsign(x: P32E2, y: P32E2) -> P32E2 {
 
 mod kernel {
     use super::*;
-    // TODO: |n| > 111
-    pub const fn pow2i(mut n: i32) -> P32E2 {
+    pub const fn pow2i(n: i32) -> P32E2 {
+        if n > 111 || n < -111 {
+            // The direct encoding needs room for both exponent bits (|n| <= 111).  Larger scales are the
+            // product of two such factors, which rounds and saturates by the posit rule; 2^120 is maxpos,
+            // so clamping at 222 changes nothing.
+            let m = if n > 222 {
+                222
+            } else if n < -222 {
+                -222
+            } else {
+                n
+            };
+            let h = m / 2;
+            return pow2i_direct(h).mul(pow2i_direct(m - h));
+        }
+        pow2i_direct(n)
+    }
+    const fn pow2i_direct(mut n: i32) -> P32E2 {
         let sign = n.is_negative();
         if sign {
             n = -n;
